@@ -471,6 +471,13 @@ impl DefragQueue {
         let frame_index = match frame.header.is_last() {
             // Operation only on the last frame
             true => {
+                // A second last frame must not alter the state of the queue.
+                let last_mask_index = (MAX_FRAMES - 1) / BITMASK_ENTRY_BITS;
+                let last_bit_mask = 1 << ((MAX_FRAMES - 1) % BITMASK_ENTRY_BITS);
+                if (self.recv_mask[last_mask_index] & last_bit_mask) != 0 {
+                    return Err(DefragmentInsertError::Duplicate(frame.header));
+                }
+
                 // If we receive the last frame, we know the final packet size.
                 let final_packet_size = frame.header.frame_offset as usize + frame.fragment.len();
                 self.final_packet_size = Some(final_packet_size);
@@ -545,7 +552,7 @@ impl DefragQueue {
         };
 
         // One time Operation after we received last and any middle frame
-        if let (Some(final_packet_size), Some(frame_window_size), Some(last_frame_offset), None) = (
+        if let (Some(_), Some(frame_window_size), Some(last_frame_offset), None) = (
             self.final_packet_size,
             self.frame_window_size,
             self.last_frame_offset,
@@ -565,14 +572,39 @@ impl DefragQueue {
             }
 
             // Only after we have received the last frame, and any middle frame, we know how many
-            // frames to expect and the final packet size.
-            let expected_frames = final_packet_size.div_ceil(frame_window_size);
+            // frames to expect and the final packet size: every middle frame below the last
+            // frame's offset, plus the last frame itself.
+            let expected_frames = last_frame_offset as usize / frame_window_size + 1;
             // expected_frames is guaranteed to be <= MAX_FRAMES
             // because final_packet_size <= MAX_PACKET_SIZE
             // and     frame_window_size >= MIN_PAYLOAD_SIZE
 
+            // Middle frames at or beyond the last frame's offset can not be part of the packet
+            let has_frame_beyond_last = (expected_frames - 1..MAX_FRAMES - 1).any(|i| {
+                (self.recv_mask[i / BITMASK_ENTRY_BITS] & (1 << (i % BITMASK_ENTRY_BITS))) != 0
+            });
+            if has_frame_beyond_last {
+                self.idle = true;
+                return Err(DefragmentInsertError::InvalidHeaderValue(
+                    frame.header,
+                    "frame_beyond_last_frame",
+                ));
+            }
+
             self.expected_frames = Some(expected_frames);
         };
+
+        // A middle frame at or beyond the last frame's offset can not be part of the packet
+        if let Some(expected_frames) = self.expected_frames
+            && !frame.header.is_last()
+            && frame_index >= expected_frames - 1
+        {
+            self.idle = true;
+            return Err(DefragmentInsertError::InvalidHeaderValue(
+                frame.header,
+                "frame_beyond_last_frame",
+            ));
+        }
 
         let mask_index = frame_index / BITMASK_ENTRY_BITS;
         let frame_bit_position = frame_index % BITMASK_ENTRY_BITS;
